@@ -1,6 +1,7 @@
 (* Property C09: no frame is larger than its verbatim encoding.
    Statements only; proofs in Proofs/EncoderSize.v.  The estimators are arbitrary functions. *)
-From FV Require Import Model.Base Model.Codes Model.Predict Model.Component Model.Encoder Proofs.EncoderSize.
+From FV Require Import Generated Model.Base Model.Codes Model.Predict Model.Component Model.Encoder Proofs.EncoderSize
+  Proofs.EncodeFrameE2E Proofs.FrameSizes.
 Local Open Scope N_scope.
 
 (* every subframe the encoder returns costs at most the verbatim subframe of the same samples *)
@@ -31,3 +32,15 @@ Theorem C09_frame_bits_bound : forall f : frame,
                         + sumN (map subframe_count_bits (f_subframes f)) + 7 + 16.
 Proof. exact frame_bits_le. Qed.
 Print Assumptions C09_frame_bits_bound.
+
+(* in BYTES, for the frames the encoder emits: the serialised frame is never longer than its header, verbatim
+   subframes of the block (channels * (8 + n * bps) bits), byte padding and the CRC-16 *)
+Theorem C09_frame_bytes_le_verbatim :
+  forall (ent : N -> N -> N -> N) (qlpc : N -> N -> qparams) cfg rate channels bps fi b f fb (n : nat),
+    encode_frame ent qlpc cfg rate channels bps fi fi b = Ok f -> frame_bytes f = Ok fb ->
+    cfg_max_parameter cfg <= 14 -> In bps [8; 12; 16; 20; 24] -> rate < 2 ^ 32 -> 1 <= channels <= 8 -> fi < 2 ^ 31 ->
+    (1 <= n)%nat -> N.of_nat n <= c_MAX_BLOCK_SIZE -> length b = (n * N.to_nat channels)%nat ->
+    block_hyps qlpc cfg fi channels bps b n -> samples_ok bps b = true ->
+    8 * N.of_nat (length fb) <= header_count_bits (f_header f) + channels * (8 + N.of_nat n * bps) + 23.
+Proof. exact encoded_frame_bytes_le_verbatim. Qed.
+Print Assumptions C09_frame_bytes_le_verbatim.
